@@ -386,6 +386,33 @@ func genC04(r *hlib.Rng, n int, destructive bool) In {
 	return in
 }
 
+// directed C04 history: the node halts on a block of a new fork (deposit-count gap) and the reorg that follows removes only
+// recorded blocks WITHOUT deposits (claims / token mappings only): it removes processed blocks, so it clears the halt, and the
+// node must then follow the new fork like a node that never saw the old one
+func genC04HaltNoDeposit(r *hlib.Rng) In {
+	h := &hist{r: r, kinds: []string{"claim", "tm"}, pBridg: 60}
+	in := In{Prop: "c04", Proofs: "some"}
+	for i := 0; i < 2+r.Intn(2); i++ {
+		in.Ops = append(in.Ops, h.block(3))
+	}
+	h.num++
+	quiet := Op{K: "block", Num: h.num, Events: []Ev{{T: "claim", Pos: 1, Tag: 900001}, {T: "tm", Pos: 3, Tag: 900002}}}
+	in.Ops = append(in.Ops, quiet)
+	h.num++
+	in.Ops = append(in.Ops, Op{K: "block", Num: h.num, Events: []Ev{{T: "claim", Pos: 2, Tag: 900003}}})
+	// a block of the new fork whose deposit count does not follow: halt
+	in.Ops = append(in.Ops, Op{K: "block", Num: h.num + 1000, Events: []Ev{genBridge0(r, h.dc+2, 1, 0)}})
+	in.Ops = append(in.Ops, Op{K: "reorg", B: quiet.Num})
+	in.Ops = append(in.Ops, snapOp())
+	h.num = quiet.Num - 1
+	for i := 0; i < 3; i++ {
+		in.Ops = append(in.Ops, h.block(3))
+	}
+	in.Ops = append(in.Ops, snapOp())
+	in.TwinOps = twinOf(in.Ops)
+	return in
+}
+
 // twinOf: same snapshots, but every block that is later reorged away is never processed, reorgs/restarts/faults dropped
 func twinOf(ops []Op) []Op {
 	// emit blocks incrementally while the surviving history only grows, else restart the twin from an empty DB ("reset")
@@ -542,6 +569,9 @@ func generate(prop string, f *hlib.Flags) []In {
 			}
 			ins = append(ins, genC08(r, 4+r.Intn(8)))
 		case "c04":
+			if i == 0 {
+				ins = append(ins, genC04HaltNoDeposit(hlib.NewRng(f.Seed^0xc04a)))
+			}
 			ins = append(ins, genC04(r, 6, i%5 == 4))
 		case "c07":
 			if i%3 == 2 {
